@@ -1,10 +1,11 @@
 package c15
 
 import (
-	"os"
 	"bytes"
 	"context"
 	"fmt"
+	"github.com/LiskHQ/lisk-engine/pkg/consensus/certificate"
+	"os"
 	"sort"
 	"strings"
 	"testing"
@@ -52,24 +53,24 @@ type consWrap struct {
 func (c *consWrap) AddInternal(b *blockchain.Block) { c.onAdd(b) }
 
 type world struct {
-	t      *rapid.T
-	n      *node.Node
-	genDB  *db.DB
-	pool   *txpool.TransactionPool
-	gen    *generator.Generator
-	cfg    *config.Config
-	forged []*blockchain.Block // every header ever signed, in order
-	last   *blockchain.Block   // block handed to AddInternal by the latest forge, nil if none
+	t              *rapid.T
+	n              *node.Node
+	genDB          *db.DB
+	pool           *txpool.TransactionPool
+	gen            *generator.Generator
+	cfg            *config.Config
+	forged         []*blockchain.Block // every header ever signed, in order
+	last           *blockchain.Block   // block handed to AddInternal by the latest forge, nil if none
 	orderViolation string
-	hist   []string
-	maxTxSize uint32
-	allNoVote    bool
-	forceChange  bool // the next forged block carries a parameter change of the application
-	forceCertify bool // before the next forge every validator certifies the whole uncertified range
-	aggAcross    int  // forged blocks with a non-empty aggregate commit while a parameter change was finalized but uncertified
-	lastAccepted *blockchain.Block // latest forged block that reached consensus (was published)
-	accepted     []*blockchain.Block
-	gStar     []byte // the validator owning the current wall-clock slot: the only one the real generator forges for
+	hist           []string
+	maxTxSize      uint32
+	allNoVote      bool
+	forceChange    bool              // the next forged block carries a parameter change of the application
+	forceCertify   bool              // before the next forge every validator certifies the whole uncertified range
+	aggAcross      int               // forged blocks with a non-empty aggregate commit while a parameter change was finalized but uncertified
+	lastAccepted   *blockchain.Block // latest forged block that reached consensus (was published)
+	accepted       []*blockchain.Block
+	gStar          []byte // the validator owning the current wall-clock slot: the only one the real generator forges for
 }
 
 func (w *world) fail(format string, a ...any) {
@@ -176,9 +177,9 @@ func drawFee(t *rapid.T) uint64 {
 }
 
 type poolTx struct {
-	tx      *blockchain.Transaction
-	sender  int
-	failAt  string // "", "verify", "execute-invalid"
+	tx     *blockchain.Transaction
+	sender int
+	failAt string // "", "verify", "execute-invalid"
 }
 
 func (w *world) fillPool(t *rapid.T) []poolTx {
@@ -545,9 +546,107 @@ func runCertScenario(t *rapid.T, w *world) (forges int) {
 	return
 }
 
+// scenario 3: certification lagging more than 100 blocks behind finality. Single commits for the block preceding a threshold
+// change enter the pool while recent; the chain grows by > 100 finalized blocks without certificates while the certificate
+// ticker keeps re-publishing the old commits; then the generator forges: the aggregate commit it signs must pass its own node.
+func runLagScenario(t *rapid.T, w *world) (forges int) {
+	w.extend(t, 100+rapid.IntRange(2, 8).Draw(t, "lagPrefix"), false)
+	tip := w.n.Tip().Header
+	cur, err := w.n.CurrentParams(tip.Height + 1)
+	if err != nil {
+		w.fail("params: %v", err)
+	}
+	gens, err := w.n.Exec.GetGeneratorKeys(w.n.Store(), tip.Height+1)
+	if err != nil {
+		w.fail("generator list: %v", err)
+	}
+	weight := map[int]uint64{}
+	for i, ix := range cur.Idx {
+		weight[ix] = cur.Weights[i]
+	}
+	next := node.NextParams{Precommit: cur.Precommit}
+	for _, g := range gens {
+		k := node.KeyByAddr(g.Address())
+		next.Idx = append(next.Idx, k.Index)
+		next.Weights = append(next.Weights, weight[k.Index])
+	}
+	next.Cert = cur.Cert%uint64(len(cur.Idx)) + uint64(len(cur.Idx))/3 + 1
+	if next.Cert > uint64(len(cur.Idx)) {
+		next.Cert = uint64(len(cur.Idx))
+	}
+	slot := w.n.SlotOf(tip.Timestamp) + 1
+	if k, err := w.n.GeneratorAt(tip.Height+1, slot); err == nil && bytes.Equal(k.Addr, w.gStar) {
+		slot++
+	}
+	b, err := w.n.Apply(node.Spec{AbsSlot: slot, Script: node.Script{Salt: 7, Next: &next}})
+	if err != nil {
+		w.fail("harness block with a parameter change rejected: %v", err)
+	}
+	c := b.Header.Height
+	w.hist = append(w.hist, fmt.Sprintf("extend to h=%d: certificate threshold %d -> %d from the next height", c, cur.Cert, next.Cert))
+	for j := 0; j < 30; j++ {
+		if _, pc, _ := w.n.Heights(); pc > c {
+			break
+		}
+		w.extend(t, 1, false)
+	}
+	hd, err := w.n.Chain.DataAccess().GetBlockHeaderByHeight(c)
+	if err != nil {
+		w.fail("header: %v", err)
+	}
+	signers := rapid.IntRange(1, len(cur.Idx)).Draw(t, "lagSigners")
+	if rapid.Bool().Draw(t, "lagAllSign") {
+		signers = len(cur.Idx)
+	}
+	for _, ix := range cur.Idx[:signers] {
+		k := node.Keys()[ix]
+		sc := certificate.NewSingleCommit(hd, k.Addr, node.ChainID, k.BLSPriv)
+		w.n.Exec.VerifSingleCommitValidator(&p2p.Message{Data: (&consensus.EventPostSingleCommits{SingleCommits: []*certificate.SingleCommit{sc}}).Encode()})
+	}
+	_, pcNow, _ := w.n.Heights()
+	w.hist = append(w.hist, fmt.Sprintf("%d of %d validators gossip their commit for height %d (precommitted %d): %d in the pool", signers, len(cur.Idx), c, pcNow, len(w.n.Exec.VerifPoolCommits(c))))
+	round := func() {
+		_ = w.n.Exec.VerifBroadcastCertificate()
+		_, pc, _ := w.n.Heights()
+		if p, err := w.n.CurrentParams(w.n.Tip().Header.Height); err == nil {
+			pool := w.n.Exec.VerifCertificatePool()
+			pool.Upgrade(pool.Select(pc, len(p.Idx)))
+		}
+	}
+	for j := 0; j < 150; j++ {
+		if _, pc, _ := w.n.Heights(); pc > c+101 {
+			break
+		}
+		w.extend(t, 1, false)
+		if j%30 == 29 {
+			round()
+		}
+	}
+	rounds := rapid.IntRange(1, 3).Draw(t, "lagRounds")
+	for i := 0; i < rounds; i++ {
+		round()
+	}
+	_, pc, cert := w.n.Heights()
+	w.hist = append(w.hist, fmt.Sprintf("tip=%d precommitted=%d certified=%d after %d broadcast rounds: %d commits for height %d in the pool (threshold %d)", w.n.Tip().Header.Height, pc, cert, rounds, len(w.n.Exec.VerifPoolCommits(c)), c, cur.Cert))
+	if w.forge(t) {
+		forges++
+	}
+	return
+}
+
 func runHistory(t *rapid.T) {
 	w := newWorld(t)
 	defer w.close()
+	if rapid.IntRange(0, 9).Draw(t, "lagScenario") == 0 {
+		forges := runLagScenario(t, w)
+		if os.Getenv("C15_DEBUG") != "" {
+			fmt.Println(strings.Join(w.hist[len(w.hist)-8:], "\n"), "\n-----")
+		}
+		evid.R.Case(strings.Join(w.hist[len(w.hist)-6:], "|"), w.aggAcross > 0, func() any {
+			return map[string]any{"kind": "history", "actions": w.hist[len(w.hist)-8:], "forges": forges}
+		}, "history", "lag-scenario", fmt.Sprintf("aggregate-before-pending-change-%v", w.aggAcross > 0))
+		return
+	}
 	if rapid.IntRange(0, 3).Draw(t, "certScenario") == 0 {
 		forges := runCertScenario(t, w)
 		if os.Getenv("C15_DEBUG") != "" {
